@@ -86,3 +86,112 @@ def _(L):
     # the finally block: whatever happened before, the marker is gone from the vertices already visited
     verts, pre = L.seq, L.prefix
     return _marker_inv(L, lambda ob: And(Mem(verts, ob), Not(Mem(pre, ob))))
+
+
+# =============================================================================================== plaintext.basic_render (C16)
+from .helpers import NB, NB_bad, heap_key, I5       # noqa: E402
+from .traversal import cache_only_effects, loop_cache_loose   # noqa: E402
+
+ARROW = z3.StringVal(" -> ")
+COMMA = z3.StringVal(", ")
+NL = z3.StringVal("\n")
+
+
+class RenderEnv:
+    def __init__(self, S, ct, args):
+        self.S, self.ct = S, ct
+        self.uni = args["uni"].term
+        self.rf = args["rfunc"].term
+        self.sk = args["sort"].term
+        hk = heap_key(S)
+        self.J_ = z3.Function(f"render_join@{hk}", Ref, RSeq, T.Str)          # rfunc, q -> ", ".join(r(w) for w in q)
+        self.TJ_ = z3.Function(f"render_trailing@{hk}", Ref, RSeq, T.Str)     # rfunc, q -> "".join(r(w) + ", " for w in q)
+        self.LINES_ = z3.Function(f"render_lines@{hk}", Ref, Ref, RSeq, T.SSeq)   # rfunc, sort, p -> [line(v) for v in p]
+
+    def r(self, x):
+        """rendering of one vertex: rfunc(x) (its str()), or repr(x)"""
+        return If(self.rf != NONE, T.cbs1(self.rf, x), T.py_repr(x))
+
+    def nbs(self, v):
+        nb = NB(self.S, v, z3.IntVal(0), z3.IntVal(2), NONE)       # FORWARD neighbours in neighbors() order
+        return If(self.sk != NONE, T.sortedby(self.sk, nb), nb)
+
+    def order(self):
+        m = self.S.members(self.uni)
+        return If(self.sk != NONE, T.sortedby(self.sk, m), m)
+
+    def J(self, q):
+        return self.J_(self.rf, q)
+
+    def TJ(self, q):
+        return self.TJ_(self.rf, q)
+
+    def LINES(self, p):
+        return self.LINES_(self.rf, self.sk, p)
+
+    def line(self, v):
+        return z3.Concat(self.r(v), ARROW, self.J(self.nbs(v)))
+
+    def join_defs(self, q):
+        """J / TJ by snoc recursion, and their relation: TJ(q) = J(q) ++ ", " for non-empty q"""
+        out = [self.J(EMPTY()) == z3.StringVal(""), self.TJ(EMPTY()) == z3.StringVal("")]
+        parts = T._flat(q)
+        if parts and T._is_unit(parts[-1]) and not T._is_empty(q):
+            w = parts[-1].arg(0)
+            head = cat(*parts[:-1])
+            out.append(self.J(q) == If(Len(head) == 0, self.r(w), z3.Concat(self.J(head), COMMA, self.r(w))))
+            out.append(self.TJ(q) == z3.Concat(self.TJ(head), self.r(w), COMMA))
+        return out
+
+    def lines_defs(self, p):
+        out = [self.LINES(EMPTY()) == z3.Empty(T.SSeq)]
+        parts = T._flat(p)
+        if parts and T._is_unit(parts[-1]) and not T._is_empty(p):
+            v = parts[-1].arg(0)
+            head = cat(*parts[:-1])
+            out.append(self.LINES(p) == z3.Concat(self.LINES(head), z3.Unit(self.line(v))))
+        return out
+
+
+@contract("plaintext.basic_render", "uni:Universe, rfunc:cb:srf=None, sort:cb:ksort=None", props=("C16",), shards=2)
+def _(c):
+    S, ct = c.S, c.ct
+    E = RenderEnv(S, ct, c.args)
+    c.assume_inv(TY_unis(S, ct))
+    c.assume_inv(TY_links(S, ct))
+    c.assume_inv(I5(S))
+    c.assume_inv(Schema("members-are-vertices", (Ref,), lambda x: Implies(Mem(E.order(), x), And(x != NONE, ct.is_a(x, "Vertex")))))
+    c.assume_inv(Schema("every-link-is-two-ended", (Ref, Ref), lambda x, l: Implies(
+        And(ct.is_a(x, "Vertex"), Mem(S.links(x), l)),
+        And(l != NONE, ct.is_a(l, "TwoEndedLink"), Len(S.ends(l)) == 2, Or(x == S.v1(l), x == S.v2(l)))), pair_from=("_links@",)))
+    c.assume_inv(Schema("no-abnormal-scan", (Ref,), lambda x: Implies(ct.is_a(x, "Vertex"), Not(NB_bad(S, x, z3.IntVal(0), z3.IntVal(2), NONE)))))
+    c.assume_inv(Schema("rfunc-does-not-raise", (Ref,), lambda x: Not(T.cb1_raises(E.rf, x))))
+    c.assume_inv(Schema("neighbours-are-renderable", (Ref, Ref), lambda x, w: Implies(
+        And(ct.is_a(x, "Vertex"), Mem(E.nbs(x), w)), w != NONE), pair_from=("NBf@", "sortedby")))
+    empty = Len(S.members(E.uni)) == 0
+    c.normal(when=empty, result=NONE_V, label="empty-universe")
+    o = c.normal(when=Not(empty), label="rendered")
+    # one line per member in universe (or sort-key) order; each line: rendering, " -> ", renderings of the FORWARD
+    # neighbours joined by ", " (a vertex without neighbours keeps "rendering -> ")
+    o.result(VStr(T.SJoin(NL, E.LINES(E.order()))))
+    cache_only_effects(o, S)
+
+
+@REG.loop("plaintext.basic_render", 0)
+def _(L):
+    E = RenderEnv(L.st, L.engine.ct, L.args)
+    lines = L.env["lines"].ref
+
+    def c_selems(new, old, *_):
+        return [Schema("lines-so-far", (Ref,), lambda r: If(r == lines, new(r) == E.LINES(L.prefix), new(r) == old(r)), trigger=("selems",))]
+    return LoopInv(ground_defs=E.lines_defs(L.prefix), loose=loop_cache_loose(None) + [Loose("selems", c_selems)])
+
+
+@REG.loop("plaintext.basic_render", 1)
+def _(L):
+    E = RenderEnv(L.st, L.engine.ct, L.args)
+    v = L.env["vert"].term
+    q = L.prefix
+    line = z3.Concat(E.r(v), ARROW, E.TJ(q))
+    return LoopInv(ground_defs=E.join_defs(q), define={"line": VStr(line)},
+                   facts=[Implies(Len(q) > 0, E.TJ(q) == z3.Concat(E.J(q), COMMA))])
